@@ -914,6 +914,108 @@ example : (saveRun ['d'] ([] : Files Nat)
     (opsObservation (fun _ _ => 0) [(.image, ['j','p','g']), (.image, ['j','p','g'])] 1)).isNone
     = true := by decide
 
+/-! ### automatic numbering -/
+
+theorem le_foldl_max (l : List Nat) (a : Nat) : a ≤ l.foldl max a ∧ ∀ x ∈ l, x ≤ l.foldl max a := by
+  induction l generalizing a with
+  | nil => simp
+  | cons y ys ih =>
+    simp only [List.foldl_cons, List.mem_cons]
+    obtain ⟨h1, h2⟩ := ih (max a y)
+    refine ⟨by omega, ?_⟩
+    rintro x (rfl | hx)
+    · omega
+    · exact h2 x hx
+
+/-- **Automatic numbering never reuses a number**: for every set of numbers already present in the folder,
+the next number is larger than all of them (and is 1 in an empty folder). -/
+theorem nextNumber_fresh (existing : List Nat) :
+    (∀ x ∈ existing, x < nextNumber existing) ∧ nextNumber existing ∉ existing ∧ 1 ≤ nextNumber existing := by
+  have hlt : ∀ x ∈ existing, x < nextNumber existing := by
+    intro x hx
+    unfold nextNumber maxOf
+    cases existing with
+    | nil => simp at hx
+    | cons y ys =>
+      simp only [List.isEmpty_cons, Bool.false_eq_true, if_false]
+      have := (le_foldl_max (y :: ys) 0).2 x hx
+      omega
+  refine ⟨hlt, fun h => by have := hlt _ h; omega, ?_⟩
+  unfold nextNumber
+  split <;> omega
+
+/-- any number of consecutive automatic saves into any folder get pairwise different numbers, none of which
+was present: no save can hit an existing file or a file of an earlier readout -/
+theorem autoSaves_fresh_distinct (n : Nat) : ∀ (existing : List Nat),
+    (autoSaves existing n).Nodup ∧ ∀ k ∈ autoSaves existing n, k ∉ existing := by
+  induction n with
+  | zero => intro ex; simp [autoSaves]
+  | succ n ih =>
+    intro ex
+    obtain ⟨hnd, hfresh⟩ := ih (nextNumber ex :: ex)
+    obtain ⟨_, hnot, _⟩ := nextNumber_fresh ex
+    simp only [autoSaves, List.nodup_cons, List.mem_cons]
+    refine ⟨⟨fun h => (hfresh _ h) (by simp), hnd⟩, ?_⟩
+    rintro k (rfl | hk)
+    · exact hnot
+    · exact fun h => hfresh k hk (by simp [h])
+
+/-- into an empty folder the files are numbered 1, 2, …, n -/
+theorem autoSaves_from_empty (n : Nat) : autoSaves [] n = (List.range n).map (· + 1) := by
+  have key : ∀ (n m : Nat) (ex : List Nat), ex ≠ [] → maxOf ex = m →
+      autoSaves ex n = (List.range n).map (· + (m + 1)) := by
+    intro n
+    induction n with
+    | zero => intro m ex _ _; rfl
+    | succ n ih =>
+      intro m ex hne hm
+      have hnext : nextNumber ex = m + 1 := by
+        unfold nextNumber
+        cases ex with
+        | nil => exact absurd rfl hne
+        | cons y ys => simp [hm]
+      have hmax : maxOf ((m + 1) :: ex) = m + 1 := by
+        unfold maxOf at hm ⊢
+        simp only [List.foldl_cons]
+        have e : max 0 (m + 1) = m + 1 := by omega
+        rw [e]
+        have h1 := le_foldl_max ex (m + 1)
+        have h2 : ∀ x ∈ ex, x ≤ m := fun x hx => hm ▸ (le_foldl_max ex 0).2 x hx
+        -- every element is ≤ m < m + 1, so the fold stays at m + 1
+        have h3 : ∀ (l : List Nat) (a : Nat), (∀ x ∈ l, x ≤ a) → l.foldl max a = a := by
+          intro l
+          induction l with
+          | nil => intro a _; rfl
+          | cons y ys ihl =>
+            intro a h
+            simp only [List.foldl_cons]
+            have : max a y = a := by have := h y (by simp); omega
+            rw [this]
+            exact ihl a (fun x hx => h x (by simp [hx]))
+        exact h3 ex (m + 1) (fun x hx => by have := h2 x hx; omega)
+      simp only [autoSaves, hnext]
+      rw [ih (m + 1) ((m + 1) :: ex) (by simp) hmax, List.range_succ_eq_map]
+      simp only [List.map_cons, List.map_map, Nat.zero_add, List.cons.injEq, true_and]
+      apply List.map_congr_left
+      intro a _
+      simp only [Function.comp]
+      omega
+  cases n with
+  | zero => rfl
+  | succ n =>
+    simp only [autoSaves]
+    have h1 : nextNumber [] = 1 := rfl
+    rw [h1, key n 1 [1] (by simp) rfl, List.range_succ_eq_map]
+    simp only [List.map_cons, List.map_map, Nat.zero_add, List.cons.injEq, true_and]
+    apply List.map_congr_left
+    intro a _
+    simp only [Function.comp]
+
+-- non-vacuity, and the counter-witness for sorting the *names* as text (seeded defect C19-8): with ten
+-- files present the text-sorted "last" file is number 9, so number 10 is handed out again
+example : autoSaves [3, 1, 7] 3 = [8, 9, 10] ∧ nextNumber [1, 2, 3, 4, 5, 6, 7, 8, 9, 10] = 11 := by decide
+example : nextNumberTextSorted [1, 2, 3, 4, 5, 6, 7, 8, 9, 10] = 10 := by decide +kernel
+
 /-! ### tables regenerated from today's source -/
 
 /-- the directory is created with `exist_ok=False`, inside a `while True` whose
@@ -938,6 +1040,7 @@ theorem name_templates :
     PyxelModel.Generated.C19.plainNameParts = ["detector_", "{bucket_name}", ".", "{extension}"] ∧
     PyxelModel.Generated.C19.suffixedNameParts =
       ["detector_", "{bucket_name}", "_", "{filename_suffix}", ".", "{extension}"] ∧
-    PyxelModel.Generated.C19.runNumberPlusOne = true := by decide
+    PyxelModel.Generated.C19.runNumberPlusOne = true ∧
+    PyxelModel.Generated.C19.autoNumberSortsNumbers = true := by decide
 
 end PyxelModel.C19
